@@ -2,6 +2,7 @@ package c18
 
 import (
 	"fmt"
+	"strings"
 
 	"go.yaml.in/yaml/v4"
 	"pgregory.net/rapid"
@@ -154,7 +155,7 @@ func trunc(b []byte) []byte {
 type TPlan struct {
 	Dec   string `json:"dec"`
 	Base  Plan   `json:"base"`
-	Mode  int    `json:"mode"` // 0 as is, 1 truncate, 2 flip bit, 3 prefix hostile, 4 random bytes, 5 splice
+	Mode  int    `json:"mode"` // 0 as is, 1 truncate, 2 flip bit, 3 prefix hostile, 4 random bytes, 5 splice, 6 structure-aware edit (YAML: rename / duplicate / delete / reorder a top-level entry)
 	Arg   int    `json:"arg"`
 	Bytes []byte `json:"bytes"`
 }
@@ -166,7 +167,7 @@ func GenT(t *rapid.T) TPlan {
 	return TPlan{
 		Dec:   rapid.SampledFrom(Decoders).Draw(t, "dec"),
 		Base:  Gen(t),
-		Mode:  rapid.IntRange(0, 5).Draw(t, "mode"),
+		Mode:  rapid.IntRange(0, 6).Draw(t, "mode"),
 		Arg:   rapid.IntRange(0, 100000).Draw(t, "arg"),
 		Bytes: rapid.SliceOfN(rapid.Byte(), 0, 40).Draw(t, "bytes"),
 	}
@@ -228,9 +229,76 @@ func (p TPlan) Input() []byte {
 		cut := p.Arg % len(valid)
 
 		return append(append(append([]byte(nil), valid[:cut]...), p.Bytes...), valid[cut:]...)
+	case 6:
+		if p.Dec == "yaml-resource" || p.Dec == "yaml-metadata" {
+			return yamlEdit(valid, p.Arg)
+		}
+
+		cut := p.Arg % len(valid)
+
+		return append(append(append([]byte(nil), valid[:cut]...), p.Bytes...), valid[cut:]...)
 	}
 
 	return valid
+}
+
+// yamlEdit applies a structure-aware edit to a valid YAML document: its top-level entries (a line that does not start
+// with a space, plus the indented lines that follow) are renamed after one another, duplicated, deleted or reordered.
+// The result is still well-formed YAML most of the time, which byte-level edits almost never are.
+func yamlEdit(valid []byte, arg int) []byte {
+	lines := strings.SplitAfter(string(valid), "\n")
+
+	var blocks [][]string
+
+	for _, l := range lines {
+		if l == "" {
+			continue
+		}
+
+		if len(blocks) == 0 || (l[0] != ' ' && l[0] != '-' && l[0] != '\n') {
+			blocks = append(blocks, nil)
+		}
+
+		blocks[len(blocks)-1] = append(blocks[len(blocks)-1], l)
+	}
+
+	if len(blocks) < 2 {
+		return valid
+	}
+
+	i, j := arg%len(blocks), (arg/7)%len(blocks)
+	if i == j {
+		j = (j + 1) % len(blocks)
+	}
+
+	keyOf := func(b []string) string {
+		k, _, _ := strings.Cut(b[0], ":")
+
+		return k
+	}
+
+	switch (arg / 49) % 4 {
+	case 0:
+		// entry i takes the name of entry j: a duplicated key, the other key missing
+		_, rest, _ := strings.Cut(blocks[i][0], ":")
+		blocks[i] = append([]string{keyOf(blocks[j]) + ":" + rest}, blocks[i][1:]...)
+	case 1:
+		blocks = append(blocks, blocks[i])
+	case 2:
+		blocks = append(blocks[:i], blocks[i+1:]...)
+	case 3:
+		blocks[i], blocks[j] = blocks[j], blocks[i]
+	}
+
+	var out strings.Builder
+
+	for _, b := range blocks {
+		for _, l := range b {
+			out.WriteString(l)
+		}
+	}
+
+	return []byte(out.String())
 }
 
 // RunT runs one totality plan.
